@@ -153,6 +153,12 @@ class Analysis:
         name = None
         if isinstance(f, ast.Attribute) and norm(f.value) in ('self', 'self.planner', 'planner'):
             name = f.attr
+        elif isinstance(f, ast.Attribute) and isinstance(f.value, ast.Call) and isinstance(f.value.func, ast.Name):
+            # ClassName(...).method(...): the method of that class
+            for c in self.by_name.get(f.attr, []):
+                if c.cls == f.value.func.id and c.outer is None:
+                    return c
+            return None
         elif isinstance(f, ast.Name):
             name = f.id
         if name is None:
@@ -564,25 +570,9 @@ def run(ctx):
         ok = any(not pol and "['predictors']" in norm(t) for t, pol in gs)
         ctx.ob('C10.model-never-fetched', f'plan_select_identifier:{norm(c.func)}', ok,
                f'plan_select_identifier reaches {norm(c.func)} without having excluded a predictor in FROM', file=QP, line=c.lineno)
-    # F. version kept ----------------------------------------------------------------------------------------------------------
-    gp = units.get('QueryPlanner.get_predictor')
-    ctx.need(gp is not None, 'get_predictor not found')
-    vvars = [n.targets[0].id for n in walk_no_nested(gp.fn) if isinstance(n, ast.Assign) and isinstance(n.targets[0], ast.Name)
-             and isinstance(n.value, ast.Subscript) and norm(n.value.slice) == '-1']
-    ok = False
-    for n in walk_no_nested(gp.fn):
-        if isinstance(n, ast.Call) and dotted(n.func) == 'dict':
-            ok = ok or any(k.arg == 'version' and isinstance(k.value, ast.Name) and k.value.id in vvars for k in n.keywords)
-        if isinstance(n, ast.Assign) and isinstance(n.targets[0], ast.Subscript) and const_str(n.targets[0].slice) == 'version':
-            ok = ok or (isinstance(n.value, ast.Name) and n.value.id in vvars)
-    ctx.ob('C10.version-kept', 'get_predictor', ok, 'get_predictor splits the version suffix off but does not return it with the model info',
-           file=QP, line=gp.fn.lineno, witness='select * from mindsdb.pred.3 where x = 1')
-    gn = units.get('QueryPlanner.get_predictor_namespace_and_name_from_identifier')
-    ctx.need(gn is not None, 'get_predictor_namespace_and_name_from_identifier not found')
-    ok = any(isinstance(n, ast.Call) and isinstance(n.func, ast.Attribute) and n.func.attr == 'append' and "['version']" in norm(n.args[0])
-             for n in walk_no_nested(gn.fn))
-    ctx.ob('C10.version-kept', 'get_predictor_namespace_and_name_from_identifier', ok,
-           'the version suffix is not appended to the predictor identifier of the apply step', file=QP, line=gn.fn.lineno)
+    # F. version kept: get_predictor's answer is in the model-resolution table below; the identifier the apply steps use is interpreted here -------------
+    for label, ok, msg, line in model_identifier_table(ctx):
+        ctx.ob('C10.version-kept', label, ok, msg, file=QP, line=line, witness='select * from mindsdb.pred.3 where x = 1')
     # every step that names a model takes the name from the reference in the query (which carries the version), never rebuilds it
     nap = 0
     for u in an.units:
@@ -643,7 +633,7 @@ def model_resolution_table(ctx):
     for parts, default_ns, want in cases:
         self_ = Obj('QueryPlanner', predictor_info={k: dict(v) for k, v in catalog.items()}, default_namespace=default_ns, predictor_namespace='mindsdb',
                     databases=['int1', 'int2', 'mindsdb', 'proj'], projects=['mindsdb', 'proj'])
-        it = Interp({'Identifier': set()}, {})
+        it = Interp.for_file(ctx.src, QP, {'Identifier': set()}, {})
         label = f'{".".join(parts)} (default namespace {default_ns})'
         try:
             info = it.call_function(gp, [self_, Obj('Identifier', parts=list(parts), alias=None)], {}, Env())
@@ -662,6 +652,37 @@ def model_resolution_table(ctx):
                     f'[{label}] get_predictor answers {got}, expected {want}: a name is a model exactly when its qualifier (the default namespace for a bare name) plus '
                     f'name is in the model catalog, the version suffix is kept, names of tables inside a database (database.schema.table) are tables, and the catalog is '
                     f'not modified', gp.lineno))
+    return out
+
+
+def model_identifier_table(ctx):
+    """get_predictor_namespace_and_name_from_identifier interpreted (with the real get_predictor) on model references with and without a version suffix, in
+    either letter case and with / without the namespace: the identifier of the apply step is <namespace>.<model>[.<version>].  -> (label, ok, message, line)"""
+    from ..interp import Interp, Obj, Raised, Env
+    qp = class_named(ctx.src.tree(QP), 'QueryPlanner')
+    gn = function_named(qp, 'get_predictor_namespace_and_name_from_identifier')
+    ctx.need(gn is not None, 'get_predictor_namespace_and_name_from_identifier not found')
+    catalog = {'mindsdb.pred': {'name': 'pred', 'integration_name': 'mindsdb'}, 'proj.tp3': {'name': 'tp3', 'integration_name': 'proj'}}
+    out = []
+    for parts, default_ns, want in ((['pred'], 'mindsdb', ['mindsdb', 'pred']), (['mindsdb', 'pred', '3'], 'int1', ['mindsdb', 'pred', '3']),
+                                    (['proj', 'tp3', '7'], 'mindsdb', ['proj', 'tp3', '7']), (['TP3', '7'], 'proj', ['proj', 'tp3', '7']),
+                                    (['proj', 'tp3'], 'mindsdb', ['proj', 'tp3'])):
+        self_ = Obj('QueryPlanner', predictor_info={k: dict(v) for k, v in catalog.items()}, default_namespace=default_ns, predictor_namespace='mindsdb',
+                    databases=['int1', 'int2', 'mindsdb', 'proj'], projects=['mindsdb', 'proj'])
+        ident = Obj('Identifier', parts=list(parts), alias=None)
+        it = Interp.for_file(ctx.src, QP, {'Identifier': set()}, {'copy.deepcopy': lambda it_, x: x.clone()})
+        label = f'identifier of {".".join(parts)} (default namespace {default_ns})'
+        try:
+            res = it.call_function(gn, [self_, ident], {}, Env())
+            ns, new = res
+            got = (ns, [str(x).lower() for x in new.parts])
+        except Raised as r:
+            got = f'raises {r.exc_name}'
+        except (TypeError, ValueError, AttributeError) as x:
+            got = f'unexpected result ({x})'
+        ok = got == (want[0], want) and ident.parts == list(parts)
+        out.append((label, ok, f'[{label}] the model identifier handed to the steps is {got}, expected {(want[0], want)} with the reference of the query left as it was: '
+                               f'a version suffix `model.3` must survive, or another version of the model is applied', gn.lineno))
     return out
 
 
@@ -704,7 +725,7 @@ def query_info_table(ctx):
                  'self.is_predictor': lambda it, n: False,
                  'Identifier': lambda it, *a, **k: Obj('Identifier', parts=list(k.get('parts') or []), alias=k.get('alias')),
                  'self.resolve_database_table': lambda it, n: it.call_function(rdt, [self_, n], {}, Env())}
-        it = Interp({'Identifier': set(), 'Select': set(), 'Function': set(), 'NativeQuery': set(), 'Data': set()}, stubs)
+        it = Interp.for_file(ctx.src, QP, {'Identifier': set(), 'Select': set(), 'Function': set(), 'NativeQuery': set(), 'Data': set()}, stubs)
         try:
             info = it.call_function(gqi, [self_, query], {}, Env())
         except Raised as r:
@@ -753,7 +774,7 @@ def rewrite_table(ctx):
         query = Obj('Select', _visits=visits)
         stubs = {'Identifier': lambda it, *a, **k: Obj('Identifier', parts=list(k.get('parts') or (a[0].split('.') if a else [])), alias=k.get('alias')),
                  'query_traversal': traverse}
-        it = Interp({'Join': set(), 'Identifier': set(), 'Select': set()}, stubs)
+        it = Interp.for_file(ctx.src, QP, {'Join': set(), 'Identifier': set(), 'Select': set()}, stubs)
         label = (f'parts={[p if isinstance(p, str) else "*" for p in parts]} is_table={is_table} is_target={is_target} alias={has_alias} from={fk}'
                  + (' other-table-aliased-like-the-integration' if other_alias else ''))
         try:
